@@ -47,7 +47,8 @@ ASSUMPTIONS = [
 TRUSTED_EXTRA = [
     "clock.py: int(delta.total_seconds()) is modelled as days*86400+seconds (exact for the float below 2^32 s, compared by the ntp "
     "component up to 70000 days); the float microseconds of datetime_from_ntp are exact (numerator < 2^52, divisor 2^32) and timedelta's "
-    "round-half-even is modelled as such; dates before 1900 (negative deltas) are not modelled",
+    "round-half-even is modelled as such; dates before 1900 (negative deltas) are not modelled; the abs-send-time expression is taken "
+    "from the source of RTCRtpSender._run_rtp (the value assigned to packet.extensions.abs_send_time) and evaluated on a stub clock",
     "float arithmetic of int(time.time()*clockrate) and of time.time()-lsr_time is not modelled: the harness evaluates the same "
     "Python expressions on the scripted clock values and hands the resulting integer / exact rational to the model",
     "asyncio scheduling of _run_rtcp (sleep, random interval) is replaced by a single loop iteration; the decoder thread is not started",
@@ -814,14 +815,35 @@ class Info(Component):
 NTP_ERA_DAYS = (1 << 32) // 86400          # 49710 days: the 32-bit seconds run out on 2036-02-07
 
 
+_ABS_CODE = None
+
+
+def _abs_send_time_code():
+    """The expression `RTCRtpSender._run_rtp` assigns to packet.extensions.abs_send_time, taken from the source as it is now."""
+    global _ABS_CODE
+    if _ABS_CODE is None:
+        import ast
+        import inspect
+        import aiortc.rtcrtpsender as m
+        tree = ast.parse(inspect.getsource(m))
+        found = [n for n in ast.walk(tree) if isinstance(n, ast.Assign) and len(n.targets) == 1
+                 and ast.unparse(n.targets[0]) == "packet.extensions.abs_send_time"]
+        if len(found) != 1:
+            raise RuntimeError(f"{len(found)} assignments to packet.extensions.abs_send_time in rtcrtpsender.py")
+        _ABS_CODE = compile(ast.fix_missing_locations(ast.Expression(found[0].value)), "<abs_send_time>", "eval")
+    return _ABS_CODE
+
+
 class Ntp(Component):
     name = "ntp"
     theorems = ["low_lt", "low_floor", "toNtp_eq", "toNtp_seconds", "toNtp_fraction", "toNtp_fits_iff", "toNtp_mono",
-                "toNtp_strict", "lsr_of_toNtp", "from_to", "fromNtp_normalised", "fromNtp_range"]
+                "toNtp_strict", "lsr_of_toNtp", "from_to", "fromNtp_normalised", "fromNtp_range",
+                "absSendTime_fits", "absSendTime_of_toNtp", "absSendTime_period"]
 
     def corpus(self):
         return [{"to": [0, 0, 0]}, {"to": [45920, 43200, 500000]}, {"to": [NTP_ERA_DAYS, 23295, 999999]},
                 {"to": [NTP_ERA_DAYS, 23296, 0]}, {"to": [60000, 86399, 999999]},
+                {"abs": 0}, {"abs": (1 << 64) - 1}, {"abs": 17040416752007118848}, {"abs": (1 << 70) + 12345},
                 {"from": 0}, {"from": (1 << 64) - 1}, {"from": 33554432}, {"from": (1 << 32) - 1}, {"from": 3 * 33554432}]
 
     def cases(self, rng, tier):
@@ -829,7 +851,11 @@ class Ntp(Component):
         out = []
         for _ in range(n):
             r = rng.random()
-            if r < 0.5:
+            if r < 0.15:
+                hi = rng.choice([0, 63, 64, (1 << 32) - 1, 1 << 32, rng.randrange(1 << 32), rng.randrange(1 << 34)])
+                lo = rng.choice([0, (1 << 14) - 1, 1 << 14, (1 << 32) - 1, rng.randrange(1 << 32)])
+                out.append({"abs": (hi << 32) | lo})
+            elif r < 0.55:
                 d = rng.choice([0, 1, NTP_ERA_DAYS - 1, NTP_ERA_DAYS, NTP_ERA_DAYS + 1, rng.randrange(0, NTP_ERA_DAYS + 1),
                                 rng.randrange(40000, 50000), rng.randrange(0, 70000)])
                 s = rng.choice([0, 1, 23295, 23296, 86399, rng.randrange(86400)])
@@ -845,12 +871,18 @@ class Ntp(Component):
     def model_line(self, case):
         if "to" in case:
             return "ntp to " + " ".join(str(v) for v in case["to"])
+        if "abs" in case:
+            return f"ntp abs {case['abs']}"
         return f"ntp from {case['from']}"
 
     def impl(self, case):
         import datetime
         from aiortc import clock
         try:
+            if "abs" in case:
+                import types
+                ntp = case["abs"]
+                return f"ok {eval(_abs_send_time_code(), {'clock': types.SimpleNamespace(current_ntp_time=lambda: ntp)})}"
             if "to" in case:
                 d, s, m = case["to"]
                 return f"ok {clock.datetime_to_ntp(clock.NTP_EPOCH + datetime.timedelta(days=d, seconds=s, microseconds=m))}"
@@ -864,6 +896,15 @@ class Ntp(Component):
         from aiortc import clock
         if not impl_out.startswith("ok "):
             return f"clock conversion of {case} raised {impl_out}"
+        if "abs" in case:
+            v = int(impl_out[3:])
+            ntp = case["abs"]
+            want = (((ntp >> 32) % 64) << 18) | ((ntp & (M32 - 1)) >> 14)
+            if not 0 <= v < (1 << 24):
+                return f"abs_send_time {v} for clock {ntp} does not fit the 24-bit header extension"
+            if v != want:
+                return f"abs_send_time {v} for clock {ntp} is not the 6.18 fixed-point time {want}"
+            return None
         if "to" in case:
             d, s, m = case["to"]
             ntp = int(impl_out[3:])
@@ -891,17 +932,22 @@ class Ntp(Component):
             d, s, m = case["to"]
             era = "era" if d * 86400 + s < M32 else "past-era"
             return f"to/{era}/" + ("us0" if m == 0 else "us-max" if m == 999999 else "us")
+        if "abs" in case:
+            return "abs/" + ("era" if case["abs"] < (1 << 64) else "past-era")
         lo = case["from"] & (M32 - 1)
         tie = (lo * 1000000 * 2) % M32 == 0 and (lo * 1000000) % M32 != 0
         return "from/" + ("tie" if tie else "carry" if lo * 1000000 * 2 + M32 >= 2 * M32 * 1000000 else "plain")
 
     def nontrivial(self, case, impl_out):
-        return case.get("to", [1])[-1] != 0 or case.get("from", 0) != 0
+        return case.get("to", [1])[-1] != 0 or case.get("from", 0) != 0 or case.get("abs", 0) != 0
 
     def shrink(self, case):
         if "to" in case:
             d, s, m = case["to"]
             return [{"to": v} for v in ([d // 2, s, m], [d, s // 2, m], [d, s, m // 2], [d, 0, m], [d, s, 0]) if v != case["to"]]
+        if "abs" in case:
+            n = case["abs"]
+            return [{"abs": v} for v in (n >> 1, n & (M32 - 1), n & ~(M32 - 1)) if v != n]
         n = case["from"]
         return [{"from": v} for v in (n >> 1, n & (M32 - 1), n & ~(M32 - 1)) if v != n]
 
